@@ -325,15 +325,17 @@ func (r *Reader) initFields() error {
 }
 
 func (r *Reader) getSource(ent *TOCEntry) (_ *TOCEntry, err error) {
-	if ent.Type == "hardlink" {
+	// Follow the chain of hardlinks iteratively. The TOC is untrusted: a chain
+	// longer than the number of entries means that hardlinks form a cycle.
+	for hops := 0; ent.Type == "hardlink"; hops++ {
+		if hops > len(r.m) {
+			return nil, fmt.Errorf("%q is in a cycle of hardlinks", ent.Name)
+		}
 		org, ok := r.m[cleanEntryName(ent.LinkName)]
 		if !ok {
 			return nil, fmt.Errorf("%q is a hardlink but the linkname %q isn't found", ent.Name, ent.LinkName)
 		}
-		ent, err = r.getSource(org)
-		if err != nil {
-			return nil, err
-		}
+		ent = org
 	}
 	return ent, nil
 }
